@@ -1,7 +1,7 @@
 //! alg / split / merge / bg cases: src/bed/bed_trait.rs
 use crate::sexp::*;
 use crate::util::*;
-use bed_utils::bed::{merge_sorted_bed, merge_sorted_bed_with, merge_sorted_bedgraph, BEDLike, BedGraph, GenomicRange, NarrowPeak, BED};
+use bed_utils::bed::{merge_sorted_bed, merge_sorted_bed_with, merge_sorted_bedgraph, BEDLike, BedGraph, GenomicRange, BED};
 use std::cmp::Ordering;
 use std::sync::Mutex;
 
@@ -26,9 +26,6 @@ fn alg_typed<A: BEDLike, B: BEDLike, C: BEDLike>(ra: &A, rb: &B, rc: &C) -> Vec<
     ]
 }
 
-fn np(g: &GenomicRange) -> NarrowPeak {
-    NarrowPeak { chrom: g.chrom().to_string(), start: g.start(), end: g.end(), name: Some("n".into()), score: None, strand: None, signal_value: 1.5, p_value: None, q_value: Some(0.0), peak: 3 }
-}
 fn bed6(g: &GenomicRange) -> BED<6> {
     BED::new(g.chrom(), g.start(), g.end(), Some("x".to_string()), None, None, Default::default())
 }
@@ -60,6 +57,14 @@ pub fn run_alg(args: &[Sx]) -> Sx {
             np(&ga).compare(&np(&ga)),
         ];
         if !(c1 == c2 && c1 == c3) { emit(a("ORACLE-FAIL:compare-/-Ord-/-to_genomic_range-disagree")) };
+        // records that differ in name, score, strand, signal ...: the order looks at (chrom, start, end) only
+        for k in 0..6usize {
+            let c4 = vec![bed6v(&ga, k).compare(&bed6v(&gb, k + 1)), bed6v(&gb, k + 2).compare(&bed6v(&ga, k)), npv(&gb, k).compare(&npv(&gc, k + 1)),
+                          bed6v(&ga, k).compare(&bed6v(&gc, k + 2)), npv(&ga, k).compare(&npv(&ga, k + 1))];
+            if c4 != c1 { emit(a("ORACLE-FAIL:compare-depends-on-name/score/strand")); break; }
+            let o4 = vec![ov(bed6v(&ga, k).overlap(&npv(&gb, k + 1))), ov(npv(&gb, k).overlap(&bed6v(&ga, k + 1)))];
+            if o4 != vec![ov(ga.overlap(&gb)), ov(gb.overlap(&ga))] { emit(a("ORACLE-FAIL:overlap-depends-on-name/score/strand")); break; }
+        }
         emit(tag("cmp", c1.into_iter().map(cmp).collect()));
         // setters on every record type: a gets b's chromosome, c's start, b's end
         fn set3<R: BEDLike>(mut r: R, c: &str, s: u64, e: u64) -> (String, u64, u64) { r.set_chrom(c).set_start(s).set_end(e); (r.chrom().to_string(), r.start(), r.end()) }
@@ -75,9 +80,43 @@ pub fn run_split(args: &[Sx]) -> Sx {
     with_panic(|emit| {
         let g = GenomicRange::new("chrS", args[0].u64(), args[1].u64());
         let b = args[2].u64();
-        let chk = |x: &GenomicRange| assert!(x.chrom() == "chrS", "chromosome changed");;
-        emit(tag("sp", g.split_by_len(b).map(|x| { chk(&x); Sx::L(vec![a(x.start()), a(x.end())]) }).collect()));
-        emit(tag("rsp", g.rsplit_by_len(b).map(|x| { chk(&x); Sx::L(vec![a(x.start()), a(x.end())]) }).collect()));
+        let chk = |x: &GenomicRange| assert!(x.chrom() == "chrS", "chromosome changed");
+        let pr = |x: &GenomicRange| (x.start(), x.end());
+        let sp: Vec<GenomicRange> = g.split_by_len(b).map(|x| { chk(&x); x }).collect();
+        emit(tag("sp", sp.iter().map(|x| Sx::L(vec![a(x.start()), a(x.end())])).collect()));
+        let rsp: Vec<GenomicRange> = g.rsplit_by_len(b).map(|x| { chk(&x); x }).collect();
+        emit(tag("rsp", rsp.iter().map(|x| Sx::L(vec![a(x.start()), a(x.end())])).collect()));
+        // the tiling does not depend on the record type, its name, score or strand
+        for k in 0..3usize {
+            let (r6, rn) = (bed6v(&g, k), npv(&g, k));
+            if r6.split_by_len(b).map(|x| pr(&x)).ne(sp.iter().map(pr)) || rn.split_by_len(b).map(|x| pr(&x)).ne(sp.iter().map(pr))
+                || BedGraph::from_bed(&g, 1.5f64).split_by_len(b).map(|x| pr(&x)).ne(sp.iter().map(pr)) { emit(a("ORACLE-FAIL:split_by_len-depends-on-record-type/strand")); break; }
+            if r6.rsplit_by_len(b).map(|x| pr(&x)).ne(rsp.iter().map(pr)) || rn.rsplit_by_len(b).map(|x| pr(&x)).ne(rsp.iter().map(pr)) { emit(a("ORACLE-FAIL:rsplit_by_len-depends-on-record-type/strand")); break; }
+        }
+        // the other ways of walking the same iterator: nth, skip, step_by, count, last, size_hint
+        let idx: Vec<usize> = vec![0, 1, 2, 3, sp.len().saturating_sub(1), sp.len(), sp.len() + 1, 7, 1 << 20, 1 << 33, usize::MAX / 2, usize::MAX];
+        for &n in idx.iter() {
+            if g.split_by_len(b).nth(n).map(|x| pr(&x)) != sp.get(n).map(pr) { emit(a("ORACLE-FAIL:split_by_len.nth")); break; }
+            if g.rsplit_by_len(b).nth(n).map(|x| pr(&x)) != rsp.get(n).map(pr) { emit(a("ORACLE-FAIL:rsplit_by_len.nth")); break; }
+            if n <= sp.len() + 1 {
+                if g.split_by_len(b).skip(n).map(|x| pr(&x)).ne(sp.iter().skip(n).map(pr)) { emit(a("ORACLE-FAIL:split_by_len.skip")); break; }
+                if g.rsplit_by_len(b).skip(n).map(|x| pr(&x)).ne(rsp.iter().skip(n).map(pr)) { emit(a("ORACLE-FAIL:rsplit_by_len.skip")); break; }
+            }
+            if n >= 1 {
+                if g.split_by_len(b).step_by(n).map(|x| pr(&x)).ne(sp.iter().step_by(n).map(pr)) { emit(a("ORACLE-FAIL:split_by_len.step_by")); break; }
+                if g.rsplit_by_len(b).step_by(n).map(|x| pr(&x)).ne(rsp.iter().step_by(n).map(pr)) { emit(a("ORACLE-FAIL:rsplit_by_len.step_by")); break; }
+            }
+        }
+        if g.split_by_len(b).count() != sp.len() || g.rsplit_by_len(b).count() != rsp.len() { emit(a("ORACLE-FAIL:split.count")); }
+        if g.split_by_len(b).last().map(|x| pr(&x)) != sp.last().map(pr) || g.rsplit_by_len(b).last().map(|x| pr(&x)) != rsp.last().map(pr) { emit(a("ORACLE-FAIL:split.last")); }
+        let (lo, hi) = g.split_by_len(b).size_hint();
+        if lo > sp.len() || hi.map_or(false, |h| h < sp.len()) { emit(a("ORACLE-FAIL:split.size_hint")); }
+        let (lo, hi) = g.rsplit_by_len(b).size_hint();
+        if lo > rsp.len() || hi.map_or(false, |h| h < rsp.len()) { emit(a("ORACLE-FAIL:rsplit.size_hint")); }
+        // a partly consumed iterator, then drained by internal iteration (fold)
+        let mut it = g.split_by_len(b); let first = it.next().map(|x| pr(&x));
+        let rest: Vec<(u64, u64)> = it.fold(Vec::new(), |mut v, x| { v.push(pr(&x)); v });
+        if first != sp.first().map(pr) || rest.iter().ne(sp.iter().skip(1).map(pr).collect::<Vec<_>>().iter()) { emit(a("ORACLE-FAIL:split.next-then-fold")); }
     })
 }
 
@@ -92,13 +131,58 @@ pub fn run_merge(args: &[Sx]) -> Sx {
         let gs = groups.into_inner().unwrap();
         if !(n_out == gs.len()) { emit(a("ORACLE-FAIL:outputs-!=-groups")) };
         emit(tag("groups", gs));
-        emit(tag("ranges", merge_sorted_bed(recs).map(|g| sx_region(&g)).collect()));
+        let ranges: Vec<GenomicRange> = merge_sorted_bed(recs.clone()).collect();
+        emit(tag("ranges", ranges.iter().map(sx_region).collect()));
+        // the same stream however it is walked: k external next() calls, then internal iteration (fold / for_each /
+        // count / last), nth, skip, step_by
+        for k in 0..4usize {
+            let mut it = merge_sorted_bed(recs.clone());
+            let mut got: Vec<GenomicRange> = Vec::new();
+            for _ in 0..k { if let Some(x) = it.next() { got.push(x); } }
+            it.for_each(|x| got.push(x));
+            if got != ranges { emit(a("ORACLE-FAIL:merge_sorted_bed-next-then-for_each")); break; }
+            let mut it = merge_sorted_bed_with(recs.clone(), |g: Vec<BedGraph<i64>>| g.len());
+            let mut tot = 0usize; let mut ng = 0usize;
+            for _ in 0..k { if let Some(x) = it.next() { tot += x; ng += 1; } }
+            let (t2, n2) = it.fold((0usize, 0usize), |(t, n), x| (t + x, n + 1));
+            if tot + t2 != recs.len() || ng + n2 != n_out { emit(a("ORACLE-FAIL:merge_sorted_bed_with-next-then-fold")); break; }
+            if merge_sorted_bed(recs.clone()).nth(k) != ranges.get(k).cloned() { emit(a("ORACLE-FAIL:merge_sorted_bed.nth")); break; }
+            if merge_sorted_bed(recs.clone()).skip(k).ne(ranges.iter().skip(k).cloned()) { emit(a("ORACLE-FAIL:merge_sorted_bed.skip")); break; }
+            if merge_sorted_bed(recs.clone()).step_by(k + 1).ne(ranges.iter().step_by(k + 1).cloned()) { emit(a("ORACLE-FAIL:merge_sorted_bed.step_by")); break; }
+            let mut it = merge_sorted_bed(recs.clone()); for _ in 0..k { it.next(); }
+            if it.count() != ranges.len().saturating_sub(k) { emit(a("ORACLE-FAIL:merge_sorted_bed.count")); break; }
+            let mut it = merge_sorted_bed(recs.clone()); for _ in 0..k { it.next(); }
+            if it.last() != (if k < ranges.len() { ranges.last().cloned() } else { None }) { emit(a("ORACLE-FAIL:merge_sorted_bed.last")); break; }
+        }
     })
 }
 
 pub fn run_bg(args: &[Sx]) -> Sx {
     with_panic(|emit| {
         let recs: Vec<BedGraph<i64>> = args[0].tagged("recs").iter().map(|r| { let l = r.list(); BedGraph::new(l[0].string(), l[1].u64(), l[2].u64(), l[3].i64()) }).collect();
-        emit(tag("out", merge_sorted_bedgraph(recs).map(|r| Sx::L(vec![hex(r.chrom.as_bytes()), a(r.start), a(r.end), a(r.value)])).collect()));
+        let key = |r: &BedGraph<i64>| (r.chrom.clone(), r.start, r.end, r.value);
+        let out: Vec<BedGraph<i64>> = merge_sorted_bedgraph(recs.clone()).collect();
+        emit(tag("out", out.iter().map(|r| Sx::L(vec![hex(r.chrom.as_bytes()), a(r.start), a(r.end), a(r.value)])).collect()));
+        // the same stream however it is walked
+        let want: Vec<_> = out.iter().map(key).collect();
+        for k in 0..4usize {
+            let mut it = merge_sorted_bedgraph(recs.clone());
+            let mut got = Vec::new();
+            for _ in 0..k { if let Some(x) = it.next() { got.push(key(&x)); } }
+            it.for_each(|x| got.push(key(&x)));
+            if got != want { emit(a("ORACLE-FAIL:merge_sorted_bedgraph-next-then-for_each")); break; }
+            let mut it = merge_sorted_bedgraph(recs.clone());
+            let mut got = Vec::new();
+            for _ in 0..k { if let Some(x) = it.next() { got.push(key(&x)); } }
+            let got = it.fold(got, |mut v, x| { v.push(key(&x)); v });
+            if got != want { emit(a("ORACLE-FAIL:merge_sorted_bedgraph-next-then-fold")); break; }
+            if merge_sorted_bedgraph(recs.clone()).nth(k).map(|x| key(&x)) != want.get(k).cloned() { emit(a("ORACLE-FAIL:merge_sorted_bedgraph.nth")); break; }
+            if merge_sorted_bedgraph(recs.clone()).skip(k).map(|x| key(&x)).ne(want.iter().skip(k).cloned()) { emit(a("ORACLE-FAIL:merge_sorted_bedgraph.skip")); break; }
+            if merge_sorted_bedgraph(recs.clone()).step_by(k + 1).map(|x| key(&x)).ne(want.iter().step_by(k + 1).cloned()) { emit(a("ORACLE-FAIL:merge_sorted_bedgraph.step_by")); break; }
+            let mut it = merge_sorted_bedgraph(recs.clone()); for _ in 0..k { it.next(); }
+            if it.count() != want.len().saturating_sub(k) { emit(a("ORACLE-FAIL:merge_sorted_bedgraph.count")); break; }
+            let mut it = merge_sorted_bedgraph(recs.clone()); for _ in 0..k { it.next(); }
+            if it.last().map(|x| key(&x)) != (if k < want.len() { want.last().cloned() } else { None }) { emit(a("ORACLE-FAIL:merge_sorted_bedgraph.last")); break; }
+        }
     })
 }
